@@ -25,6 +25,31 @@ claim("C13", "exploration",
       "Trusted: Python float->Fraction exactness, numpy bit views, mpmath's (sign, man, exp) representation.",
       "DESIGN.md section 3 C13")
 
+claim("C14", "exploration",
+      "runtime contracts on diff_ulp/ulp + independent lattice-ordinal oracle and algebraic laws; float16 neighbours exhaustive",
+      "The real diff_ulp/diff_log2ulp/ulp run under recording contracts: every finite float16 against its k-th neighbours (k up to 64, across zero "
+      "and binade edges), ulp() identities on all 65536 float16 patterns, hostile/random pairs and monotone triples in float16/32/64, complex and "
+      "array forms, and a flush-mode consistency law (the package's own collapse map, read off its distance to zero, must explain every flushed distance).",
+      "Trusted: numpy.nextafter and bit views define the lattice; vf.exact ordinals (self-tested).",
+      "DESIGN.md section 3 C14")
+
+claim("C15", "exploration",
+      "runtime contract on mpf2float with exact-rational RN oracle; backend history over flush/extra-precision settings",
+      "Directed multiprecision values (ties +- 2^-k at precisions p+1..4p, the overflow threshold, half the smallest subnormal, arbitrary exponents) are "
+      "converted by the real mpf2float under a contract comparing with RN of the exact rational; the contract also fires on the internal call from "
+      "vectorize_with_mpmath, which is driven with identity/negate/abs/double/square/sqrt/exp on hostile inputs (35% subnormal) for flush_subnormals in "
+      "{unspecified, False, True} x five extra-precision settings x three call forms.",
+      "Trusted: mpmath's (sign, man, exp) is exact; mpmath +,-,*,sqrt correctly rounded; sqrt/exp references certified at two precisions (uncertified cases counted, skipped).",
+      "DESIGN.md section 3 C15")
+
+claim("C16", "exploration",
+      "differential execution of the real polynomial routines over exact Fractions against the direct definition",
+      "All evaluation schemes (both copies of fast_polynomial x 5 schemes x reverse, horner, Laurent in all four exponent regimes, ratio form), and "
+      "multiply/add/derivative/taylorat/divmod are run on random rational polynomials of every degree 0..40 and 499..520 (scheme switch) with zero "
+      "patterns; results must equal the definition / coefficient identities exactly (P = Q*D + R, deg R < deg D).",
+      "Trusted: Python Fraction arithmetic.",
+      "DESIGN.md section 3 C16")
+
 SOURCE_COMMITS = []
 
 
